@@ -351,6 +351,15 @@ func (r *runner) exec(c *Cmd) error {
 			line["err"] = err.Error()
 		}
 		ctl.Emit(line)
+	case "RunSQL":
+		// any query; only its row count is recorded
+		n := 0
+		_, _, _, err := r.node.ProbeHook(c.SQL, c.Mem, stepTimeout, map[string]bool{"*": true}, func(k int) { n = k })
+		line := map[string]interface{}{"a": "Other", "sql": c.SQL, "mem": c.Mem, "nrows": n}
+		if err != nil {
+			line["err"] = err.Error()
+		}
+		ctl.Emit(line)
 	case "ScanBegin":
 		sc := &scan{release: make(chan struct{}), done: make(chan struct{})}
 		paused := make(chan struct{})
